@@ -273,11 +273,6 @@ theorem nonce_not_bound : ∃ n1 n2 : Nat, n1 ≠ n2 ∧
 
 /-! ## the hypotheses of the binding theorems are satisfiable -/
 
-/-- the committed 8-leaf tree of C10's examples as a value function -/
-theorem exRoot_isMerkleRoot : IsMerkleRoot exH exRoot 3 := by
-  have wf : TreeWF exH (treeOf exH exLeaves) 3 := tree_wf exH exLeaves 3 (by decide) (by decide)
-  exact ⟨treeVal exH (treeOf exH exLeaves), treeVal_wf exH _ 3 wf, treeVal_root exH _ 3 wf exRoot (by decide)⟩
-
 -- an accepted instance: the rows the toy proof opens hash to the committed leaves at positions 1, 3, 6
 example := accepted_rows_are_committed_leaves (toyVerifier true) exH_inj toyCtx (toyCommitted 0) (toyOpened [4, 5])
   (toy_accepted 0) (by decide)
@@ -285,63 +280,6 @@ example : ∃ ch, challenges (toyVerifier true) toyCtx (toyCommitted 0) = .ok ch
     ch.log = [exRoot, exRoot, T.leaf 3, T.leaf 3, T.leaf 9] := ⟨_, toy_challenges true 0, rfl, rfl⟩
 example := absorbed_before_queries (toyVerifier true) toyCtx (toyCommitted 0) _ (toy_challenges true 0)
 
-
-/-- a collision-free `hash_elements` for the instance: single-element rows hash to the leaf of the example
-    tree, every other row to an encoding of the whole list -/
-def encRow : List Nat → T
-  | [] => T.leaf 0
-  | x :: xs => T.node (T.leaf x) (encRow xs)
-
-def hashInj : List Nat → T
-  | [x] => T.leaf x
-  | l => T.node (T.leaf 0) (encRow l)
-
-theorem encRow_inj : ∀ a b : List Nat, encRow a = encRow b → a = b
-  | [], [], _ => rfl
-  | [], _ :: _, h => by simp [encRow] at h
-  | _ :: _, [], h => by simp [encRow] at h
-  | x :: xs, y :: ys, h => by
-    simp only [encRow, T.node.injEq, T.leaf.injEq] at h
-    rw [h.1, encRow_inj xs ys h.2]
-
-theorem hashInj_injective : Function.Injective hashInj := by
-  intro a b h
-  match a, b with
-  | [x], [y] => simp only [hashInj, T.leaf.injEq] at h; rw [h]
-  | [x], [] => simp [hashInj] at h
-  | [x], _ :: _ :: _ => simp [hashInj] at h
-  | [], [y] => simp [hashInj] at h
-  | _ :: _ :: _, [y] => simp [hashInj] at h
-  | [], [] => rfl
-  | [], _ :: _ :: _ => simp [hashInj, encRow] at h
-  | _ :: _ :: _, [] => simp [hashInj, encRow] at h
-  | x :: x' :: xs, y :: y' :: ys =>
-    simp only [hashInj, T.node.injEq, true_and] at h
-    exact encRow_inj _ _ h
-
-def toyVerifierI : Verifier (List Nat × List T) T Nat := { toyVerifier true with hashElems := hashInj }
-def toyCommittedI : Committed Nat T := { toyCommitted 0 with friRoots := [hashInj [4, 5]] }
-
-theorem toyI_accepted : vverify toyVerifierI toyCtx (some (toyCommittedI, toyOpened [4, 5])) = .ok () := by
-  have hch : challenges toyVerifierI toyCtx toyCommittedI = .ok
-      { toyChallenges with
-        log := [exRoot, exRoot, hashInj [1, 2], hashInj [3], hashInj [4, 5]],
-        coinAtQueries := (coinSeed 8 toyCtx [5], [exRoot, exRoot, hashInj [1, 2], hashInj [3], hashInj [4, 5]]) } := rfl
-  have hop : openingOk toyVerifierI exRoot [1, 3, 6] toyOpening 3 = true := by decide
-  have hc : checkOpened toyVerifierI toyCtx toyCommittedI (toyOpened [4, 5])
-      { toyChallenges with
-        log := [exRoot, exRoot, hashInj [1, 2], hashInj [3], hashInj [4, 5]],
-        coinAtQueries := (coinSeed 8 toyCtx [5], [exRoot, exRoot, hashInj [1, 2], hashInj [3], hashInj [4, 5]]) } = .ok () := by
-    unfold checkOpened friVerify
-    have ha : toyVerifierI.air toyCtx = toyAir := rfl
-    simp only [ha, toy_layers]
-    have h3 : Nat.log2 toyAir.ldeSize = 3 := by decide
-    simp only [h3, toyCommittedI, toyCommitted, toyOpened, toyChallenges, List.zip_cons_cons, List.zip_nil_right, List.all_cons,
-      List.all_nil, hop, Bool.and_true, Bool.not_true, Bool.false_eq_true, if_false]
-    rfl
-  unfold Model.VerifierChecks.verify
-  simp only [hch, hc]
-  rfl
 
 -- `accepted_proofs_agree` on the instance (both proofs the same one: the hypotheses are what matters here)
 example := accepted_proofs_agree toyVerifierI exH_inj hashInj_injective toyCtx toyCommittedI (toyOpened [4, 5]) (toyOpened [4, 5])
